@@ -571,3 +571,55 @@ func (e *Engine) parseWidthObligations() []*Obligation {
 	}
 	return out
 }
+
+// mnemonicTableObligations: the type and class mnemonic tables are consulted for printing only by Type.String
+// and Class.String, which fall back to TYPEnnn / CLASSnnn for code points without a mnemonic; any other reader
+// of TypeToString / ClassToString would print an empty field for such a code point.
+func (e *Engine) mnemonicTableObligations() []*Obligation {
+	allowed := map[string]bool{"(Type).String": true, "(Class).String": true, "PrivateHandle": true, "PrivateHandleRemove": true, "init": true}
+	var bad []string
+	var names []string
+	for n := range e.funcs {
+		names = append(names, n)
+	}
+	sortStrings(names)
+	for _, n := range names {
+		fn := e.funcs[n]
+		if fn == nil || fn.Pkg == nil || fn.Pkg.Pkg.Path() != dnsPath || allowed[n] || strings.HasPrefix(n, "init") {
+			continue
+		}
+		for _, b := range fn.Blocks {
+			for _, in := range b.Instrs {
+				lk, ok := in.(*ssa.Lookup)
+				if !ok {
+					continue
+				}
+				ld, ok := lk.X.(*ssa.UnOp)
+				if !ok {
+					continue
+				}
+				g, ok := ld.X.(*ssa.Global)
+				if !ok {
+					continue
+				}
+				if g.Name() == "TypeToString" || g.Name() == "ClassToString" {
+					bad = append(bad, fmt.Sprintf("%s reads %s at line %d", n, g.Name(), e.fset.Position(lk.Pos()).Line))
+				}
+			}
+		}
+	}
+	ob := &Obligation{Fn: "(Type).String", Name: "(Type).String#mnemonics.readers", Kind: "layout", Solver: "structural matcher (SSA data flow)"}
+	ob.Src = "TypeToString and ClassToString are read only by Type.String and Class.String (and the private-type registry)"
+	ob.Clause = &Clause{Label: "mnemonics.readers", Src: ob.Src}
+	if fn := e.funcs["(Type).String"]; fn != nil {
+		ob.Pos = fn.Pos()
+	}
+	if len(bad) == 0 {
+		ob.Status = "proved"
+	} else {
+		ob.Status = "failed"
+		ob.Output = strings.Join(bad, "; ")
+		ob.Src += " -- " + ob.Output
+	}
+	return []*Obligation{ob}
+}
